@@ -706,6 +706,9 @@ fn execute_inner(ctx: &mut Ctx, lines: &[String]) -> Vec<String> {
         let ans: String = match t.as_slice() {
             ["CASE", ..] => header_answer(line),
             ["END"] => "END".into(),
+            // the time zone of the process (set at start from FVH_TZ); the virtual clock is given in
+            // LOCAL time, so a correct logger behaves the same in every zone
+            ["NOTE", "tz", z] => { if std::env::var("TZ").as_deref() == Ok(*z) { "ok".into() } else { "bad-op zone of the process differs".into() } }
             ["NOTE", "nocheck-foreign"] => { f.foreign_content.clear(); nocheck_foreign = true; "ok".into() }
             ["NOTE", ..] => "ok".into(),
             ["SPEC", rest @ ..] if rest.len() == 5 => {
